@@ -1151,6 +1151,77 @@ func (g *plGen) observe() {
 	}
 }
 
+// enumGrowthScene: an enum signal in a message with a follower at distance 0..2 behind it (and,
+// half of the time, a second message sharing the enum), then the enum changes its width by each
+// of the ways the API offers — re-indexing a value across a power of two (up and down), adding
+// a value, raising / lowering the minimum size, removing the highest value — with dumps after
+// every step.  The history every size-change clause of C01 speaks about, made on purpose.
+func (g *plGen) enumGrowthScene() {
+	r := g.r
+	e, v1, v2 := g.fresh(), g.fresh(), g.fresh()
+	g.emit(sprintf("pl enum.new %d", e))
+	g.enums = append(g.enums, e)
+	g.emit(sprintf("pl val.new %d ga %d", v1, pick(r, 0, 1, 1, 3)))
+	g.emit(sprintf("pl val.new %d gb %d", v2, pick(r, 1, 2, 3, 5, 7)))
+	g.vals = append(g.vals, v1, v2)
+	g.emit(sprintf("pl enum.add %d %d", e, v1))
+	g.emit(sprintf("pl enum.add %d %d", e, v2))
+	nMsgs := 1 + r.Intn(2)
+	var ms []int
+	for k := 0; k < nMsgs; k++ {
+		m, s, f := g.fresh(), g.fresh(), g.fresh()
+		g.emit(sprintf("pl msg.new %d %d", m, pick(r, 8, 4, 2, 8)))
+		g.msgs = append(g.msgs, m)
+		ms = append(ms, m)
+		if r.Intn(3) == 0 {
+			g.emit(sprintf("pl msg.be %d 1", m))
+		}
+		g.emit(sprintf("pl sig.enum %d ge%d %d", s, s, e))
+		g.sigs = append(g.sigs, s)
+		g.skind[s] = "enum"
+		start := pick(r, 0, 0, 1, 5)
+		g.emit(sprintf("pl msg.ins %d %d %d", m, s, start))
+		if len(g.types) > 0 {
+			if g.emit(sprintf("pl sig.std %d gf%d %d", f, f, g.anyOf(g.types))) == "ok" {
+				g.sigs = append(g.sigs, f)
+				g.skind[f] = "std"
+				sz := 1
+				if sg := g.ex.sigs[s]; sg != nil {
+					sz = sg.GetSize()
+				}
+				g.emit(sprintf("pl msg.ins %d %d %d", m, f, start+sz+pick(r, 0, 0, 1, 2)))
+			}
+		}
+		g.emit(sprintf("pl dump %d", m))
+	}
+	dumps := func() {
+		for _, m := range ms {
+			g.emit(sprintf("pl dump %d", m))
+		}
+		g.emit(sprintf("pl edump %d", e))
+	}
+	for _, k := range r.Perm(6) {
+		switch k {
+		case 0:
+			g.emit(sprintf("pl val.idx %d %d", v2, pick(r, 4, 8, 9, 16, 17, 255, 256)))
+		case 1:
+			g.emit(sprintf("pl val.idx %d %d", v2, pick(r, 1, 2, 3)))
+		case 2:
+			v3 := g.fresh()
+			g.emit(sprintf("pl val.new %d gc %d", v3, pick(r, 8, 16, 31, 32, 100)))
+			g.vals = append(g.vals, v3)
+			g.emit(sprintf("pl enum.add %d %d", e, v3))
+		case 3:
+			g.emit(sprintf("pl enum.min %d %d", e, pick(r, 2, 4, 6, 9)))
+		case 4:
+			g.emit(sprintf("pl enum.min %d %d", e, 1))
+		case 5:
+			g.emit(sprintf("pl enum.rm %d %d", e, v2))
+		}
+		dumps()
+	}
+}
+
 func (payloadStream) Gen(r *rand.Rand, tier string, idx int) []string {
 	g := &plGen{r: r, ex: newPlExec(), tsize: map[int]int{}, skind: map[int]string{}, senum: map[int]int{}}
 	// seed a useful world quickly
@@ -1171,6 +1242,9 @@ func (payloadStream) Gen(r *rand.Rand, tier string, idx int) []string {
 		if r.Intn(3) == 0 {
 			g.emit(sprintf("pl msg.be %d 1", m))
 		}
+	}
+	if idx%3 == 1 {
+		g.enumGrowthScene()
 	}
 	n := 25 + r.Intn(50)
 	if tier == "thorough" {
